@@ -73,13 +73,48 @@ func discoverClones(p *Program, pkgs ...string) []cloneFn {
 				cnt++
 			}
 		}
+		passThrough := map[ssa.Value]bool{}
+		if cnt > 1 {
+			// clone(source, fallback *T) *T: the source is the parameter that is dereferenced; a
+			// same-typed parameter that is only handed back (for a nil source) is not copied from
+			var deref []ssa.Value
+			for _, par := range fn.Params {
+				if isModStruct(p, par.Type()) != rt || par.Referrers() == nil {
+					continue
+				}
+				isDeref, onlyPass := false, true
+				for _, u := range *par.Referrers() {
+					switch x := u.(type) {
+					case *ssa.FieldAddr, *ssa.Field:
+						isDeref = true
+						onlyPass = false
+					case *ssa.UnOp:
+						if x.Op == token.MUL {
+							isDeref = true
+						}
+						onlyPass = false
+					case *ssa.Return, *ssa.Phi, *ssa.BinOp, *ssa.DebugRef:
+					default:
+						onlyPass = false
+					}
+				}
+				if isDeref {
+					deref = append(deref, par)
+				} else if onlyPass {
+					passThrough[par] = true
+				}
+			}
+			if len(deref) == 1 && len(passThrough) == cnt-1 {
+				src, cnt = deref[0], 1
+			}
+		}
 		if cnt != 1 {
 			continue
 		}
 		// other parameters must be at most a receiver (engine) — no extra data parameters
 		extra := 0
 		for i, par := range fn.Params {
-			if ssa.Value(par) == src {
+			if ssa.Value(par) == src || passThrough[par] {
 				continue
 			}
 			if i == 0 && fn.Signature.Recv() != nil {
